@@ -888,10 +888,10 @@ def jobs(tier, seed):
                 out.append(dict(h="is_valid_path", r=r, c=c, L=L, empty_is_valid=eiv))
     for r, c in ([(1, 1), (1, 4), (2, 2), (3, 3), (3, 5), (5, 3), (8, 8)] if q else [(1, 1), (1, 4), (4, 1), (2, 2), (3, 3), (3, 5), (5, 3), (8, 8), (12, 12), (7, 13), (15, 15)]):
         out.append(dict(h="coord_degrees", r=r, c=c))
-    for r, c in ([(2, 2), (2, 3), (3, 3)] if q else [(1, 3), (2, 2), (2, 3), (3, 2), (3, 3), (3, 4), (4, 4)]):
+    for r, c in ([(2, 2), (2, 3), (3, 2), (4, 1), (3, 3)] if q else [(1, 3), (2, 2), (2, 3), (3, 2), (4, 1), (5, 2), (3, 3), (3, 4), (4, 3), (4, 4)]):
         for cell in itertools.product(range(r), range(c)):
             out.append(dict(h="neighbors", r=r, c=c, cell=list(cell)))
-    for r, c in ([(2, 2), (2, 3), (3, 3)] if q else [(2, 2), (2, 3), (3, 2), (3, 3), (3, 4)]):
+    for r, c in ([(2, 2), (2, 3), (3, 2), (3, 3)] if q else [(2, 2), (2, 3), (3, 2), (4, 2), (3, 3), (3, 4)]):
         cells = list(itertools.product(range(r), range(c)))
         if q and (r, c) == (3, 3):
             cells = [(0, 0), (1, 1), (2, 1)]
